@@ -99,24 +99,26 @@ func (r *Row) semKey() string {
 }
 
 type Table struct {
-	Rows   []*Row         `json:"rows"`
-	Fields []string       `json:"fields"`
-	Locks  []string       `json:"locks"`
-	Fns    []string       `json:"fns"`
-	Chans  []string       `json:"chans"`
-	Types  []string       `json:"types"` // tracked struct types
-	Notes  []string       `json:"notes"`
-	bySite map[string][]int
+	Rows     []*Row   `json:"rows"`
+	Fields   []string `json:"fields"`
+	Locks    []string `json:"locks"`
+	Fns      []string `json:"fns"`
+	Chans    []string `json:"chans"`
+	Types    []string `json:"types"` // tracked struct types
+	Notes    []string `json:"notes"`
+	Captured []string `json:"captured"` // what the goroutines of each function share (capture.go)
+	bySite   map[string][]int
 }
 
 // ---- per-package analysis --------------------------------------------------------------------
 
 type fieldInfo struct {
-	owner   string // pkg.Type
-	name    string
-	isMutex bool
-	rw      bool // RWMutex
-	isChan  bool
+	busShared bool   // field of an event type whose pointers are sent on a minibus.Bus (shared by all listeners)
+	owner     string // pkg.Type
+	name      string
+	isMutex   bool
+	rw        bool // RWMutex
+	isChan    bool
 }
 
 func (f *fieldInfo) full() string { return f.owner + "." + f.name }
@@ -180,22 +182,24 @@ func meet(states []*state) *state {
 }
 
 type pkgAn struct {
-	files    []*ast.File
-	path     string // import path
-	short    string
-	rel      string // directory relative to the repo root
-	fset     *token.FileSet
-	info     *types.Info
-	fields   map[*types.Var]*fieldInfo
+	busTypes   map[string]*types.Struct // event struct types sent on a bus, by name
+	freshMemo  map[*ast.FuncDecl]map[types.Object]bool
+	files      []*ast.File
+	path       string // import path
+	short      string
+	rel        string // directory relative to the repo root
+	fset       *token.FileSet
+	info       *types.Info
+	fields     map[*types.Var]*fieldInfo
 	innerMutex map[*fieldInfo]*fieldInfo
-	tracked  map[string]bool // pkg.Type
-	decls    map[*types.Func]*ast.FuncDecl
-	sends    map[string]int
-	closes   map[string]int
-	rows     map[string]*Row
-	rowOrder []string
-	memo     map[string]bool
-	called   map[*types.Func]bool
+	tracked    map[string]bool // pkg.Type
+	decls      map[*types.Func]*ast.FuncDecl
+	sends      map[string]int
+	closes     map[string]int
+	rows       map[string]*Row
+	rowOrder   []string
+	memo       map[string]bool
+	called     map[*types.Func]bool
 	// summaries[F][paramIndex] = list of lock sets (param name -> mode) under which F calls that parameter
 	summaries map[*types.Func]map[int][]map[string]string
 	newSumm   map[*types.Func]map[int][]map[string]string
@@ -429,6 +433,7 @@ func Extract(root string) (*Table, error) {
 	all := map[string]*Row{}
 	var order []string
 	var pas []*pkgAn
+	var capNotes []string
 	for _, d := range dirs {
 		pa, err := analysePackage(root, d)
 		if err != nil {
@@ -438,6 +443,15 @@ func Extract(root string) (*Table, error) {
 			continue
 		}
 		pas = append(pas, pa)
+		crow, cnotes := pa.captureRows()
+		for _, r := range crow {
+			k := r.semKey()
+			if _, ok := all[k]; !ok {
+				all[k] = r
+				order = append(order, k)
+			}
+		}
+		capNotes = append(capNotes, cnotes...)
 		for t := range pa.tracked {
 			tbl.Types = append(tbl.Types, t)
 		}
@@ -453,6 +467,7 @@ func Extract(root string) (*Table, error) {
 		tbl.Rows = append(tbl.Rows, all[k])
 	}
 	addSharedGlobals(tbl, pas)
+	tbl.Captured = capNotes
 	for _, k := range keys(ambientUsed) {
 		tbl.Notes = append(tbl.Notes, "ambient lock matched by owner type: "+k)
 	}
@@ -544,7 +559,7 @@ func analysePackage(root, dir string) (*pkgAn, error) {
 		return nil, nil
 	}
 	rel, _ := filepath.Rel(root, dir)
-	pa := &pkgAn{files: files, path: modulePath(root) + "/" + filepath.ToSlash(rel), short: pkg.Name(), rel: rel, fset: fset, info: info, fields: map[*types.Var]*fieldInfo{}, innerMutex: map[*fieldInfo]*fieldInfo{},
+	pa := &pkgAn{files: files, path: modulePath(root) + "/" + filepath.ToSlash(rel), short: pkg.Name(), rel: rel, fset: fset, info: info, fields: map[*types.Var]*fieldInfo{}, innerMutex: map[*fieldInfo]*fieldInfo{}, busTypes: map[string]*types.Struct{}, freshMemo: map[*ast.FuncDecl]map[types.Object]bool{},
 		tracked: map[string]bool{}, decls: map[*types.Func]*ast.FuncDecl{}, sends: map[string]int{}, closes: map[string]int{},
 		rows: map[string]*Row{}, memo: map[string]bool{}, called: map[*types.Func]bool{},
 		summaries: map[*types.Func]map[int][]map[string]string{}, newSumm: map[*types.Func]map[int][]map[string]string{}}
@@ -621,11 +636,74 @@ func analysePackage(root, dir string) (*pkgAn, error) {
 			}
 		}
 	}
+	// Event types: structs whose pointers are handed to a minibus.Bus (`x.bus.Send(ctx, &T{…})`) or
+	// taken back out of one (`event.(*T)`).  Every listener receives the SAME pointer, so an event is an
+	// object shared between the sender and all consumers; the library must not write to it after Send.
+	busFields := map[string]bool{}
+	for _, sd := range structs {
+		for _, fl := range sd.st.Fields.List {
+			if se, ok := fl.Type.(*ast.SelectorExpr); ok && se.Sel.Name == "Bus" {
+				if id, ok := se.X.(*ast.Ident); ok && id.Name == "minibus" {
+					for _, n := range fl.Names {
+						busFields[n.Name] = true
+					}
+				}
+			}
+		}
+	}
+	busShared := map[string]bool{}
+	if len(busFields) > 0 {
+		isStruct := map[string]bool{}
+		for _, sd := range structs {
+			isStruct[sd.name] = true
+		}
+		for _, f := range files {
+			ast.Inspect(f, func(n ast.Node) bool {
+				switch x := n.(type) {
+				case *ast.CallExpr:
+					se, ok := x.Fun.(*ast.SelectorExpr)
+					if !ok || se.Sel.Name != "Send" || len(x.Args) < 2 {
+						return true
+					}
+					if bs, ok := se.X.(*ast.SelectorExpr); !ok || !busFields[bs.Sel.Name] {
+						return true
+					}
+					if ue, ok := x.Args[1].(*ast.UnaryExpr); ok && ue.Op == token.AND {
+						if cl, ok := ue.X.(*ast.CompositeLit); ok {
+							if id, ok := cl.Type.(*ast.Ident); ok && isStruct[id.Name] {
+								busShared[id.Name] = true
+							}
+						}
+					}
+				case *ast.TypeAssertExpr:
+					if st, ok := x.Type.(*ast.StarExpr); ok {
+						if id, ok := st.X.(*ast.Ident); ok && isStruct[id.Name] && strings.HasSuffix(id.Name, "Change") {
+							busShared[id.Name] = true
+						}
+					}
+				}
+				return true
+			})
+		}
+	}
+	for n := range busShared {
+		if !trackedNames[n] {
+			trackedNames[n] = true
+		} else {
+			delete(busShared, n)
+		}
+	}
 	for _, s := range structs {
 		if !trackedNames[s.name] {
 			continue
 		}
 		owner := pa.short + "." + s.name
+		if busShared[s.name] {
+			owner = "bus-shared:" + owner
+			if stt, ok := s.obj.Type().Underlying().(*types.Struct); ok {
+				pa.busTypes[s.name] = stt
+			}
+		}
 		pa.tracked[owner] = true
 		st, ok := s.obj.Type().Underlying().(*types.Struct)
 		if !ok {
@@ -644,7 +722,7 @@ func analysePackage(root, dir string) (*pkgAn, error) {
 				}
 				v := st.Field(i)
 				i++
-				fi := &fieldInfo{owner: owner, name: v.Name()}
+				fi := &fieldInfo{owner: owner, name: v.Name(), busShared: strings.HasPrefix(owner, "bus-shared:")}
 				fi.isMutex, fi.rw = isSyncMutex(fl.Type)
 				if _, ok := fl.Type.(*ast.ChanType); ok {
 					fi.isChan = true
@@ -826,6 +904,9 @@ func (pa *pkgAn) record(c *fctx, st *state, fi *fieldInfo, kind string, at ast.E
 	}
 	base := rootIdent(at)
 	r := &Row{Field: fi.full(), Kind: kind, Fn: c.fn, Phase: c.phase, Role: c.role, Pos: []string{pa.pos(at)}}
+	if fi.busShared && pa.privateEvent(c, at) {
+		r.Phase = "init" // a private copy (struct value) or an event this function has just created
+	}
 	got := map[string]string{}
 	for k, m := range st.held {
 		if k.base == base {
@@ -874,6 +955,126 @@ var pendingRows = map[*fctx][]*Row{}
 
 // rows whose lock set relies on an ambient lock matched by type (reported in the table's notes)
 var ambientUsed = map[string]bool{}
+
+// privateEvent: the event object reached through `at` is not (yet) shared: the root variable holds a
+// struct VALUE (a copy), or a pointer that every assignment in the enclosing function takes from a
+// composite literal / new / a method call on the variable itself (x = x.filter(…) returns x or a fresh one).
+func (pa *pkgAn) privateEvent(c *fctx, at ast.Expr) bool {
+	id := rootIdentNode(at)
+	if id == nil {
+		return false
+	}
+	o := pa.info.Uses[id]
+	if o == nil {
+		o = pa.info.Defs[id]
+	}
+	if o == nil || o.Type() == nil {
+		return false
+	}
+	if _, isPtr := o.Type().(*types.Pointer); !isPtr {
+		if _, isNamed := o.Type().(*types.Named); isNamed {
+			return true
+		}
+		return false
+	}
+	if c.decl == nil {
+		return false
+	}
+	fd := pa.decls[c.decl]
+	if fd == nil {
+		return false
+	}
+	fresh, ok := pa.freshMemo[fd]
+	if !ok {
+		fresh = map[types.Object]bool{}
+		seen := map[types.Object]bool{}
+		note := func(lhs ast.Expr, rhs ast.Expr) {
+			lid, ok := lhs.(*ast.Ident)
+			if !ok {
+				return
+			}
+			lo := pa.objOf(lid)
+			if lo == nil {
+				return
+			}
+			ok = false
+			switch y := rhs.(type) {
+			case *ast.UnaryExpr:
+				_, isLit := y.X.(*ast.CompositeLit)
+				ok = y.Op == token.AND && isLit
+			case *ast.CallExpr:
+				if fid, isId := y.Fun.(*ast.Ident); isId && fid.Name == "new" {
+					ok = true
+				} else if se, isSel := y.Fun.(*ast.SelectorExpr); isSel {
+					if rid := rootIdentNode(se.X); rid != nil && pa.info.Uses[rid] == lo {
+						ok = true
+					}
+				}
+			}
+			if !seen[lo] {
+				seen[lo] = true
+				fresh[lo] = ok
+			} else if !ok {
+				fresh[lo] = false
+			}
+		}
+		ast.Inspect(fd.Body, func(n ast.Node) bool {
+			switch x := n.(type) {
+			case *ast.AssignStmt:
+				if len(x.Lhs) == len(x.Rhs) {
+					for i := range x.Lhs {
+						note(x.Lhs[i], x.Rhs[i])
+					}
+				} else {
+					for _, l := range x.Lhs {
+						note(l, nil)
+					}
+				}
+			case *ast.ValueSpec:
+				for i, nme := range x.Names {
+					if i < len(x.Values) {
+						note(nme, x.Values[i])
+					}
+				}
+			case *ast.RangeStmt:
+				if x.Key != nil {
+					note(x.Key, nil)
+				}
+				if x.Value != nil {
+					note(x.Value, nil)
+				}
+			}
+			return true
+		})
+		pa.freshMemo[fd] = fresh
+	}
+	return fresh[o]
+}
+
+func rootIdentNode(e ast.Expr) *ast.Ident {
+	for {
+		switch x := e.(type) {
+		case *ast.Ident:
+			return x
+		case *ast.SelectorExpr:
+			e = x.X
+		case *ast.StarExpr:
+			e = x.X
+		case *ast.ParenExpr:
+			e = x.X
+		case *ast.IndexExpr:
+			e = x.X
+		case *ast.UnaryExpr:
+			e = x.X
+		case *ast.CallExpr:
+			return nil
+		case *ast.TypeAssertExpr:
+			return nil
+		default:
+			return nil
+		}
+	}
+}
 
 // lockOwner: the struct type a mutex field belongs to ("resource.Collection" for "resource.Collection.mu")
 func (pa *pkgAn) lockOwner(lock string) string {
@@ -1470,6 +1671,20 @@ func (pa *pkgAn) walkExpr(c *fctx, st *state, e ast.Expr) {
 		}
 		pa.walkExpr(c, st, x.X)
 	case *ast.StarExpr:
+		// *p with p a pointer to an event type copies the whole event: a read of every field
+		if tv, ok := pa.info.Types[x.X]; ok && tv.Type != nil {
+			if pt, ok := tv.Type.(*types.Pointer); ok {
+				if nt, ok := pt.Elem().(*types.Named); ok {
+					if stt := pa.busTypes[nt.Obj().Name()]; stt != nil {
+						for i := 0; i < stt.NumFields(); i++ {
+							if fi := pa.fields[stt.Field(i)]; fi != nil {
+								pa.record(c, st, fi, "R", x)
+							}
+						}
+					}
+				}
+			}
+		}
 		pa.walkExpr(c, st, x.X)
 	case *ast.UnaryExpr:
 		if x.Op == token.AND {
